@@ -73,6 +73,7 @@ PROPS = {
     },
     "C09": {
         "lean_module": "SplProofs.C09",
+        "extra_modules": ["SplProofs.C09Source"],
         "streams": ["C09"],
         "rule": "stream lvhist: histories of init / push / remove(i) / set / sort (3 comparators incl. one that only looks at the first byte, to observe stability) / reopen / bytes_used / "
                 "bytes_allocated over 10 element types (incl. size 12 / align 4 and size 24 / align 8) x 6 prefix types (PodU16/32/64/128, the one-byte u8, and the 2-aligned primitive u16 which must always be rejected) at aligned offsets of a 16-aligned arena, capacities 0..6, initial buffers zeroed or garbage, full buffer compared after every op, "
@@ -81,6 +82,7 @@ PROPS = {
     },
     "C10": {
         "lean_module": "SplProofs.C10",
+        "extra_modules": ["SplProofs.C10Source"],
         "streams": ["C10"],
         "rule": "stream lv: 10 element types ((1,1) (2,2) (3,1) (4,4) (8,8) (16,16) (35,1) zero-sized, and (12,4) (24,8) whose size is a proper multiple of the alignment) x 6 prefix types (16/32/64/128-bit Pod integers, one-byte u8, and the 2-aligned primitive u16 which must always be rejected), buffers placed at start offsets 0..15 of a "
                 "16-aligned arena: all-0xff buffers (the prefix type's maximum), every length 0..header+1, random buffers with capacity 0..5, slop bytes, stored length <= cap / cap+1 / "
